@@ -145,6 +145,146 @@ let run_tree (c : case) =
       | _ -> failwith "tree: unknown line")
     c.lines
 
+
+(* ------------------------------------------------------------------ pp (Eval.v) *)
+let rec canon_perr (e : Eval.perr) : string =
+  let hp p = hex (string_of_nlist p) in
+  match e with
+  | Eval.EPreprocess None -> "Preprocess -"
+  | Eval.EPreprocess (Some (p, o)) -> Printf.sprintf "Preprocess %s %d" (hp p) (int_of_n o)
+  | Eval.EIncludeLine -> "IncludeLine"
+  | Eval.EExceed -> "ExceedRecursiveLimit"
+  | Eval.EDefineNotFound n -> "DefineNotFound " ^ hp n
+  | Eval.EDefineNoArgs n -> "DefineNoArgs " ^ hp n
+  | Eval.EDefineArgNotFound n -> "DefineArgNotFound " ^ hp n
+  | Eval.EFile p -> Printf.sprintf "File %s NotFound" (hp p)
+  | Eval.EReadUtf8 p -> "ReadUtf8 " ^ hp p
+  | Eval.EInclude e -> Printf.sprintf "Include( %s )" (canon_perr e)
+
+let origins_line (n : int) (pt : Origin.ptext) : string =
+  let b = Buffer.create 256 in
+  Buffer.add_string b "origins";
+  let org i = Origin.pt_origin pt (n_of_int i) in
+  let i = ref 0 in
+  while !i < n do
+    let o = org !i in
+    let j = ref (!i + 1) in
+    let continue = ref true in
+    while !continue && !j < n do
+      let same =
+        match o, org !j with
+        | Origin.ONone, Origin.ONone -> true
+        | Origin.OSome (p, x), Origin.OSome (p2, x2) -> p = p2 && int_of_n x2 = int_of_n x + (!j - !i)
+        | Origin.OPanic, Origin.OPanic -> true
+        | _ -> false in
+      if same then incr j else continue := false
+    done;
+    (match o with
+     | Origin.ONone -> Printf.bprintf b " %d+%d@-" !i (!j - !i)
+     | Origin.OPanic -> Printf.bprintf b " %d+%d@panic" !i (!j - !i)
+     | Origin.OSome (p, x) -> Printf.bprintf b " %d+%d@%s:%d" !i (!j - !i) (hex (string_of_nlist p)) (int_of_n x));
+    i := !j
+  done;
+  Buffer.contents b
+
+let canon_defines (d : Eval.defines) (with_org : bool) : string list =
+  let ents = Stdlib.List.map (fun (k, v) -> (string_of_nlist k, v)) d in
+  let ents = Stdlib.List.sort (fun (a, _) (b, _) -> compare a b) ents in
+  Stdlib.List.map
+    (fun (n, v) ->
+      match v with
+      | None -> Printf.sprintf "def %s none" (hex n)
+      | Some (df : Eval.define) ->
+          let b = Buffer.create 64 in
+          Printf.bprintf b "def %s id=%s nargs=%d" (hex n) (hex (string_of_nlist df.Eval.d_id))
+            (Stdlib.List.length df.Eval.d_args);
+          Stdlib.List.iter
+            (fun (a, dflt) ->
+              Printf.bprintf b " %s %s" (hex (string_of_nlist a))
+                (match dflt with Some x -> hex (string_of_nlist x) | None -> "-"))
+            df.Eval.d_args;
+          (match df.Eval.d_text with
+           | None -> Buffer.add_string b " text=-"
+           | Some (t, org) ->
+               Printf.bprintf b " text=%s" (hex (string_of_nlist t));
+               if with_org then
+                 (match org with
+                  | None -> Buffer.add_string b " org=-"
+                  | Some (p, r) ->
+                      Printf.bprintf b " org=%s:%d:%d" (hex (string_of_nlist p)) (int_of_n r.Range.rb)
+                        (int_of_n r.Range.re)));
+          Buffer.contents b)
+    ents
+
+let run_pp (c : case) =
+  let fs = ref [] and incs = ref [] and parse = ref [] and defs = ref [] in
+  let strip = ref false and ignore_ = ref false and chain = ref false in
+  let want = ref [] in
+  let last_defs = ref None in
+  let nrun = ref 0 in
+  let opt_b s = if s = "-" then None else Some (nlist_of_string (unhex s)) in
+  Stdlib.List.iter
+    (fun l ->
+      match l with
+      | "file" :: p :: t :: _ -> fs := (nlist_of_string (unhex p), Eval.FText (nlist_of_string (unhex t))) :: !fs
+      | "badfile" :: p :: _ | "dir" :: p :: _ -> fs := (nlist_of_string (unhex p), Eval.FUnreadable) :: !fs
+      | "incdir" :: p :: _ -> incs := !incs @ [nlist_of_string (unhex p)]
+      | "cleardefines" :: _ -> defs := []
+      | "define" :: n :: "none" :: _ -> defs := !defs @ [(nlist_of_string (unhex n), None)]
+      | "define" :: n :: "def" :: k :: rest ->
+          let k = int_of_string k in
+          let rec args i r acc =
+            if i = 0 then (Stdlib.List.rev acc, r)
+            else match r with
+              | a :: d :: r' -> args (i - 1) r' ((nlist_of_string (unhex a), opt_b d) :: acc)
+              | _ -> failwith "define syntax" in
+          let a, r = args k rest [] in
+          let body = match r with b :: _ -> opt_b b | [] -> None in
+          let name = nlist_of_string (unhex n) in
+          defs := !defs @ [(name, Some { Eval.d_id = name; Eval.d_args = a;
+                                         Eval.d_text = (match body with Some t -> Some (t, None) | None -> None) })]
+      | "opt" :: "strip" :: v :: _ -> strip := (v = "1")
+      | "opt" :: "ignore" :: v :: _ -> ignore_ := (v = "1")
+      | "opt" :: "chain" :: v :: _ -> chain := (v = "1")
+      | "opt" :: _ -> ()
+      | "want" :: w -> want := w
+      | "parse" :: t :: "err" :: pos :: _ ->
+          parse := (nlist_of_string (unhex t), Datatypes.Coq_inr (n_of_int (int_of_string pos))) :: !parse
+      | "parse" :: t :: "ok" :: toks ->
+          let tr, _ = parse_tree toks in
+          parse := (nlist_of_string (unhex t), Datatypes.Coq_inl tr) :: !parse
+      | "run" :: what :: args ->
+          incr nrun;
+          pr "run %d\n" !nrun;
+          let cfg = { Eval.cfg_parse = !parse; Eval.cfg_fs = !fs; Eval.cfg_incs = !incs;
+                      Eval.cfg_limit = n_of_int 64 } in
+          let d = match !chain, !last_defs with true, Some d -> d | _ -> !defs in
+          let fuel = nat_of_int 6000 in
+          let r =
+            match what, args with
+            | "preprocess", p :: _ -> Eval.preprocess fuel cfg (nlist_of_string (unhex p)) d !strip !ignore_
+            | "preprocess_str", t :: p :: rest ->
+                let rd, id = match rest with a :: b :: _ -> (int_of_string a, int_of_string b) | _ -> (0, 0) in
+                Eval.pp_str fuel cfg (nlist_of_string (unhex t)) (nlist_of_string (unhex p)) d !ignore_ !strip
+                  (n_of_int rd) (n_of_int id)
+            | _ -> failwith "pp: unknown run" in
+          (match r with
+           | Eval.ROk ((text, ops), nd) ->
+               pr "ok\n";
+               let ts = string_of_nlist text in
+               if Stdlib.List.mem "text" !want then pr "text %s\n" (hex ts);
+               if Stdlib.List.mem "origins" !want then
+                 pr "%s\n" (origins_line (Stdlib.String.length ts) (Origin.run_ops true ops));
+               if Stdlib.List.mem "defines" !want then
+                 Stdlib.List.iter (fun l -> pr "%s\n" l) (canon_defines nd (Stdlib.List.mem "deforg" !want));
+               last_defs := Some nd
+           | Eval.RErr e -> pr "err %s\n" (canon_perr e)
+           | Eval.RPanic k -> pr "model-panic %d\n" (int_of_n k)
+           | Eval.RFuel -> pr "model-fuel\n"
+           | Eval.RNeedParse t -> pr "model-needparse %s\n" (hex (string_of_nlist t)))
+      | _ -> failwith "pp: unknown line")
+    c.lines
+
 let () =
   let cmd = Sys.argv.(1) in
   let cases = read_cases Sys.argv.(2) in
@@ -155,6 +295,7 @@ let () =
          match cmd with
          | "originops" -> run_originops c
          | "tree" -> run_tree c
+         | "pp" -> run_pp c
          | _ -> failwith "unknown command"
        with
        | Stack_overflow -> pr "model-abort stack\n"
